@@ -351,6 +351,16 @@ def _error_if_vf_not_odefunction_type(expand):
             msg = f"Expected type {problems.JetOde}, but got {vf} of type {type(vf)}. "
             msg += "Make sure to wrap your vector field with `probdiffeq.ode()`."
             raise TypeError(msg)
+        if len(inits) != vf.num_tcoeffs_in_args:
+            msg = "The number of initial values does not match the order of the ODE."
+            msg += f" Expected: {vf.num_tcoeffs_in_args}."
+            msg += f" Received: {len(inits)}."
+            raise ValueError(msg)
+        shapes = [tree.tree_map(np.shape, x) for x in inits]
+        if any(shape != shapes[0] for shape in shapes):
+            msg = "All initial values must have the same structure and shapes."
+            msg += f" Received: {shapes}."
+            raise ValueError(msg)
         return expand(vf, inits, t=t)
 
     return expand_wrapped
